@@ -116,11 +116,23 @@ impl Location
 {
 	pub fn combined_with(self, other: &Location) -> Location
 	{
-		let start = std::cmp::min(self.span.start, other.span.start);
 		let end = std::cmp::max(self.span.end, other.span.end);
-		Location {
-			span: start..end,
-			..self
+		if other.span.start < self.span.start
+		{
+			// The combined location starts where the other location starts.
+			Location {
+				span: other.span.start..end,
+				line_number: other.line_number,
+				line_offset: other.line_offset,
+				..self
+			}
+		}
+		else
+		{
+			Location {
+				span: self.span.start..end,
+				..self
+			}
 		}
 	}
 
